@@ -421,4 +421,36 @@ theorem spTrsv_notrans_eq_mirrored [Conj K] (cplx : Bool) (F : LUFac K) (x : Arr
   rw [trsvLNblas_eq_trsvLN cplx F x hb, trsvUNblas_eq_trsvUN]
   rfl
 
+/-! Hypotheses are satisfiable: the model's columns for the example supernode (`exLsub`, `exLusup`:
+`nsupc = 11`, `nrow = 5`), and a 16 x 16 factor whose first supernode has 11 columns and 16 rows. -/
+def exCols : List (Nat × LU.Vec Rat) := (List.range 11).map fun t =>
+  (exLsub[1 + t]!, (Array.range 18).map fun r =>
+    match (List.range 16).find? (fun i => exLsub[1 + i]! == r) with
+    | some i => if i < t then 0 else if i = t then 1 else exLusup[3 + (t * 16 + i)]!
+    | none => 0)
+
+theorem exCols_R1 : ∀ t (ht : t < exCols.length), (exCols[t]).1 = exLsub[1 + t]! := by decide +kernel
+theorem exCols_R2 : ∀ t (ht : t < exCols.length) i, i < 16 → (exCols[t]).2.get (exLsub[1 + i]!) =
+    if i < t then 0 else if i = t then 1 else exSt.lusup[3 + (t * 16 + i)]! := by decide +kernel
+example := snodeBmod_is_supernodal_step false 13 2 exLsub exXlsub exSt 1 16 179 3 11 (by decide +kernel) (by decide +kernel)
+  (by decide +kernel) (by decide +kernel) (by decide) (by decide) (fun t u ht hu => exLsub_distinct t ht u hu) (by decide +kernel) (by decide +kernel)
+  (by decide) (by decide) (by decide +kernel) (by decide +kernel) exCols (by decide +kernel) exCols_R1 exCols_R2
+
+def exF : LUFac Rat :=
+  { L := { m := 16, n := 16, nsuper := 5, xsup := #[0, 11, 12, 13, 14, 15, 16],
+           supno := #[0, 0, 0, 0, 0, 0, 0, 0, 0, 0, 0, 1, 2, 3, 4, 5],
+           xlsub := #[0, 16, 16, 16, 16, 16, 16, 16, 16, 16, 16, 16, 17, 18, 19, 20, 21],
+           lsub := #[0, 1, 2, 3, 4, 5, 6, 7, 8, 9, 10, 11, 12, 13, 14, 15, 11, 12, 13, 14, 15],
+           xlusup := #[0, 16, 32, 48, 64, 80, 96, 112, 128, 144, 160, 176, 177, 178, 179, 180, 181],
+           lusup := (Array.range 181).map fun k => if k % 17 = 0 ∨ k ≥ 176 then 1 else ((((k * 5 + 1) % 3 : Nat) : Int) - 1 : Int) },
+    U := { m := 16, n := 16, colptr := Array.replicate 17 0, rowind := #[], val := #[] }, nnzL := 181, nnzU := 0 }
+def exB : Array Rat := (Array.range 16).map fun k => ((((k * 3 + 2) % 5 : Nat) : Int) - 2 : Int)
+
+theorem exF_blocks : ∀ k, k ≤ exF.L.nsuper → (snode exF.L k).fsupc + (snode exF.L k).nsupc ≤ exB.size := by decide +kernel
+example : trsvLNblas false exF exB = trsvLN exF exB := by decide +kernel
+example : trsvLNblas true exF exB = trsvLN exF exB := by decide +kernel
+example : trsvUNblas exF (trsvLN exF exB) = trsvUN exF false (trsvLN exF exB) := by decide +kernel
+example : trsvLN exF exB ≠ exB := by decide +kernel
+example := spTrsv_notrans_eq_mirrored false exF exB (by decide +kernel) exF_blocks
+
 end Slu.MyBlas2
